@@ -142,7 +142,9 @@ const TYPE_STEMS: [&str; 8] = [
     "T-rex",
     "Delta-E",
 ];
-const FIELD_STEMS: [&str; 8] = ["a", "item", "b-c", "val", "fooBar", "id", "x-y-z", "cnt"];
+// (the last three: a Rust keyword, and two names whose snake case starts like the name the
+// compiler gives to the member it makes of a `[[ ]]` group, `ext_group_<first member>`)
+const FIELD_STEMS: [&str; 11] = ["a", "item", "b-c", "val", "fooBar", "id", "x-y-z", "cnt", "type", "ext-group-a", "extGroupB"];
 const VALUE_STEMS: [&str; 4] = ["val", "my-const", "dflt", "x"];
 const ENUM_STEMS: [&str; 6] = ["red", "on", "green-ish", "off", "blueTone", "e"];
 const MOD_STEMS: [&str; 4] = ["Mod", "Test-Module", "Defs", "Proto-Spec"];
